@@ -180,7 +180,7 @@ fn shrink_raw(raw: &RawSchema, sig_kind: &str) -> RawSchema {
 pub fn run(report: &mut Report, seed: u64, cases: u64) {
     let mut rng = Rng::new(seed);
     for k in 0..cases {
-        let cfg = SchemaGenCfg { docs: false, hostile_names: rng.chance(20), ..Default::default() };
+        let cfg = SchemaGenCfg { docs: false, hostile_names: rng.chance(20), propertyless_pct: 12, ..Default::default() };
         let model = if k % 40 == 0 { vs_schema() } else { random_schema(&mut rng, &cfg) };
         let mut raw = RawSchema::from_model(&model);
         let mut applied: Vec<&str> = vec![];
